@@ -130,59 +130,62 @@ def run(ck, ctx):
             want_hex = ty.startswith("ast::Offset<u16")
             tr_ok = (o[1] == "display" and not o[3].get("width")) or (o[1] == "upper_hex" and want_hex and o[3].get("zero"))
             ck.ob("C36.1", "instr:%s:op%d" % (v, k), tr_ok, "operand %d (%s) is printed with %s %s" % (k, ty, o[1], {a: b for a, b in o[3].items() if b}), where, nontrivial=False)
-    # BR
+    # BR: which mask values print which text.  The path conditions of every write in the BR arm are evaluated for
+    # each of the 8 mask values (a truth table), so any spelling of the tests (`cc != &0`, `cond == 0` with the arms
+    # swapped, `cc & 4 != 0`, `cc & 4 == 4`) gives the same table; an atom the evaluator does not know fails closed.
     br = disp.get("BR", [])
     where = "src/ast/asm.rs:%s" % (br[0]["line"] if br else db.line)
-    flags = {}
-    base = {}
+    zero_const = [s2["rv"]["op"].get("val") for pb in db.promoted for blk in pb.blocks for s2 in blk["stmts"] if s2["k"] == "assign" and s2["rv"]["k"] == "use" and s2["rv"]["op"].get("k") == "const" and s2["rv"]["op"].get("ty") == "u8"]
+    M = r"(?:deref\()?arg1 as BR\.0\)?"
+
+    def atom_value(d, m):
+        """value (0/1) of a rendered boolean atom for mask value m; None if the atom is not about the mask or unknown"""
+        mm = re.fullmatch(r"Eq\((\d+), BitAnd\((\d+), %s\)\)" % M, d)
+        if mm:
+            return int((m & int(mm.group(2))) == int(mm.group(1)))
+        mm = re.fullmatch(r"Eq\((\d+), %s\)" % M, d)
+        if mm:
+            return int(m == int(mm.group(1)))
+        mm = re.fullmatch(r"Lt\((\d+), %s\)" % M, d)
+        if mm:
+            return int(int(mm.group(1)) < m)
+        mm = re.fullmatch(r"(ne|eq)\(%s, promoted\[\d*\]\)" % M, d)
+        if mm and zero_const == [0]:
+            return int((m != 0) if mm.group(1) == "ne" else (m == 0))
+        return None
+    table = {}
+    unknown = set()
     tail = None
     for e in br:
-        txt = fmtx.show(e["segs"])
-        bits = [re.search(r"BitAnd\((\d+), arg1 as BR\.0\)", d) for d, lab in e["conds"]]
-        own = [int(b.group(1)) for (d, lab), b in zip(e["conds"], bits) if b and lab == "1"]
-        nz = [lab for d, lab in e["conds"] if d.startswith("ne(arg1 as BR.0") or d.startswith("Ne(0, arg1 as BR.0") or d.startswith("eq(arg1 as BR.0")]
-        if e["segs"] and len(e["segs"]) == 1 and e["segs"][0][0] == "lit" and len(e["segs"][0][1]) == 1:
-            # a flag character: guarded by its own bit (the last bit test on the path)
-            last = [int(b.group(1)) for (d, lab), b in zip(e["conds"], bits) if b]
-            flags[e["segs"][0][1]] = (sorted(set(own)), e["line"])
-        elif e["segs"] and e["segs"][0][0] == "lit" and len(e["segs"]) == 1:
-            base[e["segs"][0][1]] = e["conds"]
-        else:
+        segs = e["segs"]
+        if not (segs and len(segs) == 1 and segs[0][0] == "lit"):
             tail = e
-    # which bit guards which letter: the bit test that is on every path to the letter with label 1 and is the innermost
-    letter_bit = {}
-    for ch, (own, line) in flags.items():
-        # the letter's own guard is the bit that no earlier letter owns
-        letter_bit[ch] = own
-    order = [ch for ch, _ in sorted(flags.items(), key=lambda kv: kv[1][1])]
-    own_bit = {}
-    seen_bits = set()
-    for ch in order:
-        cand = [b for b in letter_bit[ch] if b not in seen_bits]
-        # earlier letters' bits appear with both labels on the paths; the own bit only with label 1
-        e = [x for x in br if x["segs"] == [("lit", ch)]][0]
-        only1 = set()
-        for d, lab in e["conds"]:
-            mm = re.search(r"BitAnd\((\d+), arg1 as BR\.0\)", d)
-            if mm:
-                b = int(mm.group(1))
-                labs = set(l2 for d2, l2 in e["conds"] if d2 == d)
-                if labs == {"1"}:
-                    only1.add(b)
-        own_bit[ch] = sorted(only1)
-        seen_bits |= only1
-    ok_flags = order == ["n", "z", "p"] and own_bit == {"n": [4], "z": [2], "p": [1]}
-    def nz_label(conds):
-        labs = set(lab for d, lab in conds if d.startswith("ne(arg1 as BR.0, promoted"))
-        return next(iter(labs)) if len(labs) == 1 else None
-    zero_const = [s2["rv"]["op"].get("val") for pb in db.promoted for blk in pb.blocks for s2 in blk["stmts"] if s2["k"] == "assign" and s2["rv"]["k"] == "use" and s2["rv"]["op"].get("k") == "const" and s2["rv"]["op"].get("ty") == "u8"]
-    ok_base = set(base) == {"BR", "NOP"} and nz_label(base["BR"]) == "1" and nz_label(base["NOP"]) == "0" and zero_const == [0]
-    ck.ob("C36.1", "BR:zero-test", ok_base, "'BR' is printed iff the mask != 0 and 'NOP' iff it is 0 (compared constant: %s)" % zero_const, where)
-    ck.ob("C36.1", "BR:flags", ok_flags and set(base) == {"BR", "NOP"}, "BR prints 'BR' then the letters %s guarded by mask bits %s (required n:4, z:2, p:1 in that order); mask 0 prints %s" % (order, own_bit, sorted(base)), where)
-    tail_guards = set(d for d, lab in (tail["conds"] if tail else [])) if tail else set()
-    tail_guards = set(d for d in tail_guards if len(set(lab for d2, lab in tail["conds"] if d2 == d)) == 1)
-    ok_tail = tail is not None and fmtx.show(tail["segs"]) == "' ' {arg1 as BR.1:}" and not tail_guards
-    ck.ob("C36.1", "BR:offset", ok_tail, "then one space and the offset field: %s" % (fmtx.show(tail["segs"]) if tail else None), where)
+            continue
+        txt = segs[0][1]
+        pcs = nf.path_conditions(db, e["block"], lambda x: not x.startswith("discr("))
+        on = set()
+        for m in range(8):
+            for pc in (pcs or []):
+                vals = [(atom_value(d, m), lab) for d, lab in pc]
+                unknown |= set(d for (d, lab), (v, _) in zip(pc, vals) if v is None and ("BR.0" in d))
+                if all(v is None or str(v) == lab for v, lab in vals):
+                    on.add(m)
+                    break
+        table.setdefault(txt, set()).update(on)
+    order = [e["segs"][0][1] for e in sorted((x for x in br if x is not tail), key=lambda x: x["line"])]
+    pos = {t: i for i, t in enumerate(order)}
+    want = {"BR": {1, 2, 3, 4, 5, 6, 7}, "NOP": {0}, "n": {4, 5, 6, 7}, "z": {2, 3, 6, 7}, "p": {1, 3, 5, 7}}
+    ok_base = not unknown and table.get("BR") == want["BR"] and table.get("NOP") == want["NOP"]
+    ck.ob("C36.1", "BR:zero-test", ok_base, "'BR' is printed iff the mask != 0 and 'NOP' iff it is 0: masks printing BR %s, NOP %s%s" % (sorted(table.get("BR", [])), sorted(table.get("NOP", [])), " (unknown atoms %s)" % sorted(unknown) if unknown else ""), where)
+    # letters follow 'BR' in the order n z p: each later write is reachable from the earlier one, not the other way round
+    blk = {e["segs"][0][1]: e["block"] for e in br if e is not tail}
+    seq_ok = all(t in blk for t in ("BR", "n", "z", "p")) and all(db.can_reach(blk[a], blk[b]) and not db.can_reach(blk[b], blk[a]) for a, b in (("BR", "n"), ("n", "z"), ("z", "p")))
+    ok_flags = not unknown and set(table) == set(want) and all(table[t] == want[t] for t in want) and seq_ok
+    ck.ob("C36.1", "BR:flags", ok_flags, "masks under which each text of the BR arm is printed: %s (required BR:1-7, NOP:0, n:bit 4, z:bit 2, p:bit 1; written in the order BR n z p: %s)" % ({t: sorted(v) for t, v in sorted(table.items())}, seq_ok), where)
+    tail_pcs = nf.path_conditions(db, tail["block"], lambda x: "BR.0" in x) if tail else None
+    tail_all = tail_pcs is not None and all(any(all(atom_value(d, m) is None or str(atom_value(d, m)) == lab for d, lab in pc) for pc in tail_pcs) for m in range(8))
+    ok_tail = tail is not None and fmtx.show(tail["segs"]) == "' ' {arg1 as BR.1:}" and tail_all
+    ck.ob("C36.1", "BR:offset", ok_tail, "then, for every mask value, one space and the offset field: %s" % (fmtx.show(tail["segs"]) if tail else None), where)
     masks = {}
     for m in range(1, 8):
         name = "BR" + "".join(ch for ch, bit in (("n", 4), ("z", 2), ("p", 1)) if m & bit)
